@@ -62,10 +62,18 @@ def uniform (env : Env) (a b : PyFloat) : G PyFloat := fun s =>
      | _ => .error .unmodelled)
   | _, _ => .error .unmodelled
 
-/-- `uuid4()`, `datetime.utcnow()`, `date.today() - timedelta(days)`: answered by the environment. -/
+/-- `uuid4()`, `datetime.utcnow()`, `date.today() - timedelta(days)`: answered by the environment.
+    The answer is checked to be of the kind CPython guarantees (a version-4 UUID, a datetime, a date);
+    anything else is a defect of the draw list. -/
 def extDraw (kind : Nat) : G PyVal := fun s =>
   match s.draws with
-  | .ext v :: ds => .ok (v, { draws := ds, reqs := .ext kind :: s.reqs })
+  | .ext v :: ds =>
+    let ok := match kind, v with
+      | 0, .uuid _ 4 => true
+      | 1, .datetime _ => true
+      | 2, .date _ => true
+      | _, _ => false
+    if ok then .ok (v, { draws := ds, reqs := .ext kind :: s.reqs }) else .error .badDraw
   | _ => .error .badDraw
 
 /-- `Random.random_str(length, alphabet)`: `range(length)` is empty for a negative length. -/
